@@ -39,6 +39,85 @@ fn sentinel_version(d: &decode::RawDump, idx: u16, metric: Metric) -> i64 {
     }
 }
 
+/// The writer thread: ONE `Writer` value for the whole run, across commits and aborts.
+#[allow(clippy::too_many_arguments)]
+fn writer_loop<D: arroy::Distance>(
+    env: &heed::Env,
+    db: RawDb,
+    idx: u16,
+    metric: Metric,
+    dim: usize,
+    seed: u64,
+    hno: usize,
+    ops_plan: Vec<(bool, Vec<Op>, BuildOpts)>,
+    clock: &AtomicI64,
+    events: &Mutex<Vec<(i64, Value)>>,
+    ctx: &Mutex<Ctx>,
+) {
+    let stamp = |clock: &AtomicI64| clock.fetch_add(1, Ordering::SeqCst);
+    let adb: arroy::Database<D> = db.remap_types();
+    let wr = arroy::Writer::<D>::new(adb, idx, dim);
+    let mut version = 0i64;
+    let mut wrng = StdRng::seed_from_u64(seed ^ 0x5555);
+    for (abort, ops, o) in ops_plan {
+        let mut w = env.write_txn().unwrap();
+        let marker = if abort { -(version + 1) } else { version + 1 };
+        let mut sv = vec![0f32; dim];
+        sv[0] = marker as f32;
+        let mut all_ops = ops.clone();
+        all_ops.push(Op::Add { idx, id: SENTINEL, v: crate::hist::bits(&sv) });
+        for op in &all_ops {
+            match op {
+                Op::Add { id, v, .. } => wr.add_item(&mut w, *id, &unbits(v)).unwrap(),
+                Op::Del { id, .. } => {
+                    wr.del_item(&mut w, *id).unwrap();
+                }
+                _ => {}
+            }
+            if wrng.gen_bool(0.3) {
+                std::thread::sleep(std::time::Duration::from_micros(wrng.gen_range(0..300)));
+            }
+        }
+        let res = std::panic::catch_unwind(std::panic::AssertUnwindSafe(|| {
+            let mut rng = StdRng::seed_from_u64(o.seed);
+            let mut b = wr.builder(&mut rng);
+            if let Some(n) = o.n_trees {
+                b.n_trees(n);
+            }
+            if let Some(n) = o.split_after {
+                b.split_after(n);
+            }
+            b.build(&mut w)
+        }));
+        let res = match res {
+            Ok(Ok(())) => json!({"c":"Ok"}),
+            Ok(Err(e)) => crate::exec::err_class(&e),
+            Err(p) => json!({"c":"Panic","msg":crate::exec::panic_msg(p)}),
+        };
+        if res["c"] != "Ok" {
+            let s = stamp(clock);
+            events.lock().unwrap().push((s, json!({"ev":"W.BuildFailed","h":hno as i64,"seq":s,"res":res})));
+            w.abort();
+            continue;
+        }
+        if abort {
+            w.abort();
+            let s = stamp(clock);
+            events.lock().unwrap().push((s, json!({"ev":"W.Abort","h":hno as i64,"seq":s,"marker":marker})));
+        } else {
+            version += 1;
+            let d = dump(db, &w);
+            let st = project_all(&mut ctx.lock().unwrap(), &d, idx, metric, dim);
+            let s = stamp(clock);
+            events.lock().unwrap().push((s, json!({"ev":"W.CommitCall","h":hno as i64,"seq":s,"v":version,"st":st})));
+            w.commit().unwrap();
+            let s = stamp(clock);
+            events.lock().unwrap().push((s, json!({"ev":"W.CommitReturn","h":hno as i64,"seq":s,"v":version})));
+        }
+        std::thread::sleep(std::time::Duration::from_micros(wrng.gen_range(0..1500)));
+    }
+}
+
 /// one multi-threaded run; returns the merged, stamp-ordered events
 pub fn run(seed: u64, hno: usize, n_readers: usize, n_versions: usize, builder_threads: usize) -> Vec<Value> {
     let mut rng = StdRng::seed_from_u64(seed);
@@ -105,55 +184,9 @@ pub fn run(seed: u64, hno: usize, n_readers: usize, n_versions: usize, builder_t
             sc.spawn(move || {
                 let pool = rayon::ThreadPoolBuilder::new().num_threads(builder_threads).build().unwrap();
                 pool.install(|| {
-                    let mut version = 0i64;
-                    let mut wrng = StdRng::seed_from_u64(seed ^ 0x5555);
-                    for (abort, ops, o) in ops_plan {
-                        let mut w = env.write_txn().unwrap();
-                        let marker = if abort { -(version + 1) } else { version + 1 };
-                        let mut sv = vec![0f32; dim];
-                        sv[0] = marker as f32;
-                        let mut all_ops = ops.clone();
-                        all_ops.push(Op::Add { idx, id: SENTINEL, v: crate::hist::bits(&sv) });
-                        for op in &all_ops {
-                            with_metric!(metric, D, {
-                                let adb: arroy::Database<D> = db.remap_types();
-                                let wr = arroy::Writer::<D>::new(adb, idx, dim);
-                                match op {
-                                    Op::Add { id, v, .. } => wr.add_item(&mut w, *id, &unbits(v)).unwrap(),
-                                    Op::Del { id, .. } => {
-                                        wr.del_item(&mut w, *id).unwrap();
-                                    }
-                                    _ => {}
-                                }
-                            });
-                            if wrng.gen_bool(0.3) {
-                                std::thread::sleep(std::time::Duration::from_micros(wrng.gen_range(0..300)));
-                            }
-                        }
-                        let bo = do_build(&mut w, db, idx, metric, dim, &o, 5_000_000);
-                        if bo.res["c"] != "Ok" {
-                            // unexpected here: recorded, the transaction is rolled back
-                            let s = stamp(&clock);
-                            events.lock().unwrap().push((s, json!({"ev":"W.BuildFailed","h":hno as i64,"seq":s,"res":bo.res})));
-                            w.abort();
-                            continue;
-                        }
-                        if abort {
-                            w.abort();
-                            let s = stamp(&clock);
-                            events.lock().unwrap().push((s, json!({"ev":"W.Abort","h":hno as i64,"seq":s,"marker":marker})));
-                        } else {
-                            version += 1;
-                            let d = dump(db, &w);
-                            let st = project_all(&mut ctx.lock().unwrap(), &d, idx, metric, dim);
-                            let s = stamp(&clock);
-                            events.lock().unwrap().push((s, json!({"ev":"W.CommitCall","h":hno as i64,"seq":s,"v":version,"st":st})));
-                            w.commit().unwrap();
-                            let s = stamp(&clock);
-                            events.lock().unwrap().push((s, json!({"ev":"W.CommitReturn","h":hno as i64,"seq":s,"v":version})));
-                        }
-                        std::thread::sleep(std::time::Duration::from_micros(wrng.gen_range(0..1500)));
-                    }
+                    with_metric!(metric, D, {
+                        writer_loop::<D>(&env, db, idx, metric, dim, seed, hno, ops_plan, &clock, &events, &ctx);
+                    });
                 });
                 stop.store(true, Ordering::SeqCst);
             });
